@@ -14,7 +14,7 @@ import itertools
 import termios
 
 from mc.runner import Acc, Report
-from mc.term import BLANK, Term, TermError
+from mc.term import BLANK, Term, TermError, expand_cells
 from mc import winharness as WH
 
 LEVEL = "model_checking"
@@ -151,11 +151,13 @@ def pyte_agrees(acc, term, init_bytes, written, case):
     stream = pyte.Stream(screen)
     stream.feed(init_bytes)
     stream.feed(written)
-    rows = [line.rstrip() for line in screen.display]
-    mine = [r.rstrip() for r in term.text_rows()]
+    import unicodedata as _ud
+
+    rows = [_ud.normalize("NFC", line).rstrip() for line in screen.display]
+    mine = [_ud.normalize("NFC", r).rstrip() for r in term.text_rows()]
     px = min(screen.cursor.x, term.w - 1)
-    hist = ["".join(line[x].data for x in range(term.w)).rstrip() for line in screen.history.top]
-    mine_hist = ["".join(c for c, _ in r).rstrip() for r in term.scrollback]
+    hist = [_ud.normalize("NFC", "".join(line[x].data for x in range(term.w))).rstrip() for line in screen.history.top]
+    mine_hist = [_ud.normalize("NFC", "".join(c for c, _ in r)).rstrip() for r in term.scrollback]
     if rows != mine or (screen.cursor.y, px) != (term.r, term.c) or hist != mine_hist:
         acc.failure("harness:terminal_model_disagrees_with_pyte", case, "pyte %r cursor %r history %r; model %r cursor %r history %r" % (rows, (screen.cursor.y, px), hist, mine, (term.r, term.c), mine_hist))
         return False
@@ -202,7 +204,7 @@ def check_render(acc, world, st, T, hist0, arr, cur, case, pyte_ctx=None):
     if ret != want_ret:
         acc.failure("C07:return_value", case, "returned %r, expected %r (T=%d, n=%d, h=%d)" % (ret, want_ret, T, n, h))
         return None
-    shown = arr[want_ret:]
+    shown = [expand_cells(r) for r in arr[want_ret:]]  # one entry per terminal column
     for y in range(T2, h):
         i = y - T2
         for x in range(w):
@@ -309,8 +311,74 @@ def explore(args):
     return acc.export()
 
 
+WIDE_TEXTS = ("", "こ", "こん", "aこb", "e\u0301te\u0301", "abcde", "こんa", "こんに", "a\u200db", "xこ\u0301y")
+
+
+def explore_wide(args):
+    """Rows containing double-width and zero-width characters (each row at most w-1 columns wide, so that no row ends in the last
+    column): the same oracle, with rows expanded to terminal columns."""
+    tier, seed, h, w, k0, depth = args
+    acc = Acc(seed=seed, sample_stride=997)
+    world = World(False, True)
+    desc, term0 = [(d, t) for d, t in initial_terms(h, w) if d["kind"] == "printed_lines" and d["k"] == k0][0]
+    base = {"size": [h, w], "keep_last_line": False, "hide_cursor": True, "initial": {"kind": "printed_lines", "k": k0}, "family": "wide_characters"}
+    T0 = term0.r
+    hist0 = history_lines(term0, T0)
+    world.proxy.log = []
+    st0 = world.enter(term0.copy())
+    entered = "".join(world.proxy.log)
+    world.proxy.log = None
+    texts = [t for t in WIDE_TEXTS if sum(2 if ord(c) > 0x2E80 else (0 if c in "\u0301\u200d" else 1) for c in t) <= w - 1]
+
+    def arrays(step):
+        out = []
+        for n in range(0, h + 2):
+            for off in range(0, len(texts), 2 if n > 1 else 1):
+                rows = []
+                for i in range(n):
+                    t = texts[(off + i * 3 + step) % len(texts)]
+                    att = (("fg", 31),) if (i + step) % 2 else (("underline", True),)
+                    rows.append(tuple((c, att) for c in t))
+                arr = tuple(rows)
+                curs = [(0, 0)] + ([(n - 1, len(expand_cells(arr[n - 1])) and len(expand_cells(arr[n - 1])) - 1)] if n else [])
+                for cur in curs:
+                    out.append((arr, cur))
+                if n == 0:
+                    break
+        return out
+
+    def rec(st, T, hist, step, written, last):
+        if step >= depth:
+            return
+        options = arrays(step) + ([last] if last is not None else [])
+        for arr, cur in options:
+            case = dict(base, history=hist, render=["".join(c for c, _ in r) for r in arr], cursor=list(cur))
+            acc.case(True, key=("wide", h, w, k0, tuple(map(str, hist)), arr, cur), sample=case)
+            acc.transitions += 1
+            # pyte does not model format characters such as ZWJ the way terminals do: no second opinion once one was written
+            # ... and pyte loses a combining mark that follows a double-width character (it joins it to the stub cell)
+            def _pyte_ok(t):
+                return "\u200d" not in t and "こ\u0301" not in t
+
+            no_cf = _pyte_ok(written) and all(_pyte_ok("".join(c for c, _ in r)) for r in arr)
+            res = check_render(acc, world, st, T, hist0, arr, cur, case, (desc["bytes"], written, no_cf and (tier == "thorough" or acc.n % 3 == 0)))
+            if res is None:
+                continue
+            new, T2, written2 = res
+            acc.state(hash(("wide", h, w, k0, new[1].canon())))
+            rec(new, T2, hist + [[case["render"], list(cur)]], step + 1, written2, (arr, cur))
+
+    rec(st0, T0, [], 0, entered, None)
+    world.close()
+    acc.validated = acc.n
+    return acc.export()
+
+
 def run(ctx):
     rep = Report()
+    wide = [(ctx.tier, ctx.seed, h, w, k0, 3 if ctx.thorough else 2) for (h, w) in ((3, 7), (2, 9)) for k0 in range(0, h + 1)]
+    for d in ctx.pmap(explore_wide, wide):
+        rep.merge(d, "wide_characters")
     shards = []
     sizes = [(2, 2), (3, 2), (3, 3), (1, 2), (2, 5)] + ([(4, 3), (5, 1)] if ctx.thorough else [])
     for (h, w) in sizes:
@@ -339,7 +407,8 @@ def run(ctx):
         "scrolls or follows another render. transitions = real renders and exits." % (sizes,)
     )
     rep.assumptions = [
-        "terminal = mc/term.py (xterm: LF at the bottom scrolls into scrollback, DECSC/DECRC, CUP clamping)", "rows no wider than the terminal, single-column characters",
+        "terminal = mc/term.py (xterm: LF at the bottom scrolls into scrollback, DECSC/DECRC, CUP clamping; double-width characters own two columns, zero-width characters join the previous cell)",
+        "rows no wider than the terminal; rows with double-width / zero-width characters are at most w-1 columns wide (no row ends in the last column)",
         "when the cell cursor_pos designates has scrolled off the top the cursor position is not checked",
     ]
     return rep
